@@ -100,13 +100,13 @@ func TestVerifHarness(t *testing.T) {
 		var res string
 		select {
 		case res = <-resCh:
-		case <-time.After(90 * time.Second):
+		case <-time.After(45 * time.Second):
 			w.Flush()
 			head := line
 			if len(head) > 200 {
 				head = head[:200]
 			}
-			fmt.Fprintln(os.Stderr, "verif-watchdog: op did not return within 90s (stalled): "+head)
+			fmt.Fprintln(os.Stderr, "verif-watchdog: op did not return within 45s (stalled): "+head)
 			os.Exit(3)
 		}
 		w.WriteString(res)
